@@ -11,7 +11,7 @@ NCPU = int(os.environ.get('VERIF_JOBS', str(os.cpu_count() or 4)))
 MEM_KB = int(os.environ.get('VERIF_MEM_KB', str(12 * 1024 * 1024)))
 
 CLANG_FLAGS = ['-std=c++17', '-O1', '-fno-vectorize', '-fno-slp-vectorize', '-fno-unroll-loops',
-               '-D_GLIBCXX_ASSERTIONS', '-DLIBOCCA_OCCA_VERIF', '-Wno-everything']
+               '-D_GLIBCXX_ASSERTIONS', '-Wno-everything']      # E1 lifts the code as users build it: the (only) guarded hook, the hash trace, is off
 CBMC_FLAGS = ['--unwinding-assertions', '--pointer-overflow-check', '--undefined-shift-check',
               '--signed-overflow-check', '--drop-unused-functions', '--no-malloc-may-fail',
               '--no-standard-checks', '--bounds-check', '--pointer-check', '--div-by-zero-check',
@@ -302,7 +302,7 @@ def native_build(ctx, L, harness, defines=(), sanitize=True, tag='n'):
     san = ['-fsanitize=address,undefined', '-fno-sanitize-recover=undefined', '-fno-sanitize=vptr'] if sanitize else []
     wobj = os.path.join(L.dir, 'wrap_%s.o' % ('san' if sanitize else 'plain'))
     if not os.path.exists(wobj):
-        cmd = ['g++', '-std=c++17', '-O1', '-g', '-ffunction-sections', '-fdata-sections', '-D_GLIBCXX_ASSERTIONS', '-DLIBOCCA_OCCA_VERIF', '-w'] + san + include_flags(ctx, L.sharable) \
+        cmd = ['g++', '-std=c++17', '-O1', '-g', '-ffunction-sections', '-fdata-sections', '-D_GLIBCXX_ASSERTIONS', '-w'] + san + include_flags(ctx, L.sharable) \
             + ['-D' + d for d in L.defines] + (['-include', os.path.join(LIFT, 'prelude.hpp')] if L.prelude else []) \
             + ['-c', L.cpp, '-o', wobj]
         rc, o, e, s, _ = sh(cmd, timeout=900)
@@ -677,6 +677,9 @@ def do_replay(ctx, d):
         print(o[-3000:] + e[-3000:])
         print('replay rc=%s (%s)' % (rc, 'reproduced' if rc not in (0, 3) else 'not reproduced'))
         return 1 if rc not in (0, 3) else 0
+    if meta.get('kind') == 'mod':
+        import importlib
+        return importlib.import_module('props.' + ctx.pid).replay_dir(ctx, d)
     if meta.get('kind') == 'cmd':
         rc, o, e, s, _ = sh(['sh', '-c', meta['cmd']], timeout=900, cwd=d)
         print(o[-3000:] + e[-2000:])
